@@ -23,6 +23,21 @@ TEXTS = {
                     'indexes at any point, on a primary and on a replica fed from the stream; With(index) and Row.Bool(index) per row '
                     'are compared with the predicate evaluated by the specification on its own values.',
             'note': _NOTE, 'technique': _T},
+    'C04': {'text': 'FilterNames / FilterValue define the selection algebra in the specification (first Union, unknown names, typed '
+                    'filters intersecting presence, the one ambiguous case accepted both ways); TLC (GenFilter.tla) enumerates every '
+                    'chain of <= 2 operators over With/Without/Union/WithUnion x index, column, unknown names (pairs of names in '
+                    'thorough) and the value predicates; every chain is replayed on the real code on random layouts (dense, sparse, 1-3 '
+                    'blocks, rows lacking the column, reused offsets; all ten numeric types) and Count, the Range sequence with the '
+                    'values read at each stop, and Sum/Avg/Min/Max are bound to the specification; random longer chains on top.',
+            'note': _NOTE, 'technique': _T + '; TLC-generated filter chains replayed into the implementation'},
+    'C05': {'text': 'Buffer.tla transcribes the delta chain / section structure / rewrite of the commit buffer; RoundTrip, ChainSound and '
+                    'AfterRewrite are model-checked for all sequences of <= 4 (quick) / 5 (thorough) operations over 5 offsets in 3 blocks, '
+                    'strict and as-built. TLC (GenBuffer.tla) enumerates every sequence of <= 2 (quick) / 3 (thorough) writes over kinds x '
+                    'width classes x offset moves; each is replayed into the real commit.Buffer and read back through Reader.Seek/Next, '
+                    'Reader.Range per block, Buffer.WriteTo/ReadFrom, Commit.WriteTo/ReadFrom and a real Log file, before and after the '
+                    'merges are rewritten with the real Swap*; the trace specification binds sections, full and per-block reads.',
+            'note': _NOTE + ' Values are compared by a digest of their exact bytes computed by the harness.',
+            'technique': _T + '; TLC-generated operation sequences replayed into the implementation'},
     'C06': {'text': 'Converged is model-checked for 2 writers x <=2 operations + replica, every interleaving at the commit-protocol '
                     'actions, both transports, strict and as-built. On the real code: sequential histories, random schedules and '
                     'depth-first enumerated schedules of the controlled scheduler; the recorded commits are replayed on a real replica '
@@ -46,6 +61,13 @@ TEXTS = {
                     'order-sensitive affine merge, string concat, all numeric types, records) into overlapping rows are validated: '
                     'every in-latch logger event must carry the absolute value the specification computes from the apply order.',
             'note': _NOTE, 'technique': _T},
+    'C10': {'text': 'Latch.tla models writer and reader at single-column grain: NoTornRead and Exclusion hold with the read latch and '
+                    'TLC finds a torn read without it (negative control run on every check). On the real code, 16-core stress: writers '
+                    'keep (a, b, s) = (k, 2k, "v"k) across three columns of different kinds (also two rows of different blocks in one '
+                    'transaction); readers (QueryAt, Range, filtered Range) report the distinct triples read inside one callback (millions '
+                    'of reads per run), each must be a committed version; deterministic probes: with a writer parked inside the logger '
+                    'callback a reader of that block must not complete, a reader of another block must.',
+            'note': _NOTE + ' The torn-read search is statistical (real parallelism); the probes are deterministic.', 'technique': _T},
     'C11': {'text': 'NoCollision, OccupiedIsLive, FillAccounting, NoStaleValues are model-checked for 2 concurrent writers inserting '
                     'and deleting over 3 offsets in 2 blocks; on the real code every offset an insert returns must be free in the '
                     'model (sequential histories over fragmented fill patterns across word and block boundaries, all capacities; '
@@ -79,6 +101,23 @@ TEXTS = {
                     'sequence with the value read at each stop: it must be a permutation of the rows holding a value, non-decreasing '
                     'in the specification\'s own lexicographic order.',
             'note': _NOTE, 'technique': _T},
+    'C17': {'text': 'Expire.tla: NoEarlyExpiry (action property), ExpiredGoes (liveness under weak fairness of tick, scan and commit, no '
+                    'state constraint) and NoTTLStays are model-checked for 2-3 rows with an extender, strict and as-built. Timed '
+                    'executions of the real vacuum (intervals 1/5/50 ms; rows without TTL, short, long and extended TTLs; inserts, '
+                    'extensions and unrelated updates meanwhile; a restored snapshot and a replica with their own vacuum) are validated: '
+                    'every removal needs a passed deadline at the in-latch timestamp, rows overdue by more than the slack must be gone, rows '
+                    'not due must be there, Extend moves the deadline by exactly its argument, copies carry the same deadlines.',
+            'note': _NOTE + ' Wall-clock based: the slack is 10 intervals + 3 s.', 'technique': _T},
+    'C18': {'text': 'Locks.tla lists for every code path the locks held around each access to each shared variable (Go RWMutex writer '
+                    'preference included); TLC checks deadlock freedom and the lockset invariant NoRace for 5-6 concurrent paths, with the '
+                    'four variables the as-built protocol leaves unordered excused (and fails without the excuse: negative control); '
+                    'termination under fairness on 3 paths (thorough). The stress workload (growth across blocks, offset reuse, snapshots, '
+                    'restores, index builds and drops, keyed upserts, a replica, readers and writers) runs under the race detector with a '
+                    'watchdog; every report and every panic is mapped to a model variable and judged by LocksTrace.tla.',
+            'note': 'The race detector explores, the specification classifies: this is the property where the technique contributes least (TLA+ '
+                    'cannot observe memory accesses). Trusted: the function table of bin/racemap.py; reports whose functions map to no '
+                    'modelled variable are listed in the evidence, not judged.',
+            'technique': 'TLA+ lock-protocol model checked with TLC (deadlock, lockset); race-detector exploration of the implementation classified by the model'},
     'C19': {'text': 'The specification computes, per Apply, the trigger calls (per trigger and row, in issue order, final values, one '
                     'per deleted row); the real trigger callbacks recorded between two in-latch logger events must equal them; '
                     'rollbacks must come with no callback.',
